@@ -43,6 +43,7 @@ Record cfg := {
   c_gate : servertype -> bool;   (* request loop / selector registration only under a truthy handshake result *)
   c_ok_only : bool;              (* _handshake returns truthy only when it answered CONNECTOK *)
   c_marshal : N;                 (* serializer id used before the request's own is known *)
+  c_client_uses_reply_ser : bool; (* the proxy decodes the handshake answer with the serializer named in the ANSWER's header *)
   (* quirk switches = behaviour of the unrepaired code (findings of C08) *)
   q_silent_unknown_ser : bool;   (* CONNECT with an unknown serializer id: closed without CONNECTFAIL (fixed) *)
   q_silent_validator_cce : bool; (* validator raises ConnectionClosedError: closed without CONNECTFAIL (fixed) *)
@@ -384,4 +385,36 @@ Definition cfg_ok (g : cfg) : bool :=
   list_eqbN (c_first_types g) [c_connect g] &&
   list_eqbN (c_later_types g) [c_invoke g; c_ping g] &&
   negb (c_invoke g =? c_ping g)%N &&
-  c_gate g Thread && c_gate g Multiplex && c_ok_only g.
+  c_gate g Thread && c_gate g Multiplex && c_ok_only g && c_client_uses_reply_ser g.
+
+(* ---- the other end: Proxy.__pyroCreateConnection reading the daemon's answer to its CONNECT ----
+   The daemon answers an early refusal (no free worker, unaccepted serializer id, malformed or missing first
+   message) through its fallback serializer, every other answer through the serializer of the request; so the
+   answer's serializer may differ from the one the proxy is configured with.  A payload read with another
+   serializer than the one it was written with yields some unrelated decoding error: the reason is lost. *)
+Inductive client_outcome :=
+| CConnected                 (* CONNECTOK understood: the proxy is connected *)
+| CRejected (r : reason)     (* CommunicationError "connection to ... rejected: <reason>" with the daemon's reason *)
+| CNoAnswer                  (* closed without an answer: CommunicationError "cannot connect ..." *)
+| CGarbled                   (* the answer's payload was read with the wrong serializer *)
+| CProtocol.                 (* an answer that is neither CONNECTOK nor CONNECTFAIL: ProtocolError *)
+
+Definition client_reads (g : cfg) (client_ser : N) (answer : option (rkind * N * N)) : client_outcome :=
+  match answer with
+  | None => CNoAnswer
+  | Some (k, _, rser) =>
+      let used := if c_client_uses_reply_ser g then rser else client_ser in
+      match k with
+      | RConnectOk => if (used =? rser)%N then CConnected else CGarbled
+      | RConnectFail r => if (used =? rser)%N then CRejected r else CGarbled
+      | _ => CProtocol
+      end
+  end.
+
+(* the first answer addressed to connection c in a list of outputs *)
+Fixpoint answer_of (c : nat) (os : list out) : option (rkind * N * N) :=
+  match os with
+  | [] => None
+  | Reply c' k s i :: r => if Nat.eqb c' c then Some (k, s, i) else answer_of c r
+  | _ :: r => answer_of c r
+  end.
